@@ -8,23 +8,24 @@ use syn::Ident;
 use crate::wgsl::vertex_entry_structs;
 
 pub fn fragment_target_count(module: &Module, f: &Function) -> usize {
+    // The targets are indexed by location, so every location up to the highest one needs a slot.
+    let target_count = |binding: &Option<naga::Binding>| match binding {
+        Some(naga::Binding::Location { location, .. }) => *location as usize + 1,
+        // Builtins don't have render targets.
+        _ => 0,
+    };
+
     match &f.result {
         Some(r) => match &r.binding {
-            Some(b) => {
-                // Builtins don't have render targets.
-                if matches!(b, naga::Binding::Location { .. }) {
-                    1
-                } else {
-                    0
-                }
-            }
+            Some(_) => target_count(&r.binding),
             None => {
                 // Fragment functions should return a single variable or a struct.
                 match &module.types[r.ty].inner {
                     naga::TypeInner::Struct { members, .. } => members
                         .iter()
-                        .filter(|m| matches!(m.binding, Some(naga::Binding::Location { .. })))
-                        .count(),
+                        .map(|m| target_count(&m.binding))
+                        .max()
+                        .unwrap_or(0),
                     _ => 0,
                 }
             }
